@@ -97,6 +97,14 @@ void state_touch(struct snapraid_state* state)
 					/* LCOV_EXCL_STOP */
 				}
 
+				/* if the file has now a sub-second timestamp, it was changed after */
+				/* the last sync, and giving the same new timestamp to the file and */
+				/* to the content file would hide the change to the next diff and sync */
+				if (STAT_NSEC(&st) != 0) {
+					close(f);
+					continue;
+				}
+
 				/* set the tweaked modification time, with new nano seconds */
 				ret = fmtime(f, st.st_mtime, nsec);
 				if (ret != 0) {
